@@ -3,7 +3,7 @@ import ast
 
 from ..core import rule
 from ..index import AnalysisError, dotted, src, walk_no_nested, names_in
-from ..cfg import CFG
+from ..cfg import CFG, UNK
 from ..domains import check_pred, check_exprs, linform, Lin
 from ..util import node_calls, own_expr, pred_is
 from .slots import BINCOUNTS, BINNING
@@ -221,6 +221,8 @@ def window_analysis(ctx):
                 hit = True
                 break
         if hit:
+            # a test of the fragment-size parameter alone (`fragment_size is None`) selects the output format, it is not positional
+            conds = [(c_, pol) for c_, pol in conds if names_in(c_) - {frag}]
             results.append((conds, [_subst(e, env) for e in y.value.elts]))
     ctx.counters['paths_enumerated'] += len(results)
     used = set()
@@ -320,10 +322,13 @@ def r2(ctx):
     it = inner.iter
     fr = [c for c in walk_no_nested(it) if isinstance(c, ast.Call) and dotted(c.func) == 'fill_range']
     ok = len(fr) == 1 and [src(a) for a in fr[0].args[:2]] == [cur, bl_start]
-    upd = [s for s in inner.body if isinstance(s, ast.Assign) and src(s.targets[0]) == cur and src(s.value) == pe]
-    mod_parent_body = mod.parent[inner].body if inner in getattr(mod.parent[inner], 'body', []) else outer.body
-    after = [s for s in outer.body[outer.body.index(inner) + 1:]] if inner in outer.body else []
-    okc = bool(upd) and any(isinstance(s, ast.Assign) and src(s) == f'{cur} = {bl_end}' for s in after)
+    # every way through one blacklist interval leaves `current` at the end of that interval (a bin count below zero cannot happen: it is a
+    # len()); inside the bin loop `current` is at most advanced to the end of the bin just emitted
+    from ..util import explore, mk_atoms
+    rs = [r for r in explore(outer.body, mk_atoms({'total_bins < 0': False, '0 <= total_bins': True}), names=(cur,)) if r['kind'] in ('fall', 'continue')]
+    okc = bool(rs) and all(cur in r['env'] and src(r['env'][cur]) == bl_end for r in rs)
+    inner_upd = [s_ for s_ in walk_no_nested(inner) if isinstance(s_, (ast.Assign, ast.AugAssign)) and cur in {n.id for t in (s_.targets if isinstance(s_, ast.Assign) else [s_.target]) for n in ast.walk(t) if isinstance(n, ast.Name)}]
+    okc = okc and all(isinstance(s_, ast.Assign) and src(s_.value) == pe for s_ in inner_upd)
     ctx.emit('C17-R2', ok and okc, BINCOUNTS, inner, f'bins tile the gap [{cur}, {bl_start}) and `{cur}` continues at the end of the blacklisted interval afterwards', key='bins-tile-gap')
 
 
@@ -363,7 +368,7 @@ def r3(ctx):
     # the defining assignments: the one computed from fill_range (a later `total_bins = 1` only guards the division) / the one that is not a
     # `None` sentinel
     alls = sorted([s_ for s_ in walk_no_nested(outer) if isinstance(s_, ast.Assign) and isinstance(s_.targets[0], ast.Name)], key=lambda s_: s_.lineno)
-    tbs = [s_ for s_ in alls if src(s_.targets[0]) == 'total_bins' and not isinstance(s_.value, ast.Constant)]
+    tbs = [s_ for s_ in alls if src(s_.targets[0]) == 'total_bins' and not isinstance(s_.value, ast.Constant) and 'fill_range' in src(s_.value)]
     lbs = [s_ for s_ in alls if src(s_.targets[0]) == 'local_bin_size' and not (isinstance(s_.value, ast.Constant) and s_.value.value is None)]
     tb = tbs[0] if len(tbs) == 1 else None
     lb = lbs[0] if len(lbs) == 1 else None
@@ -373,8 +378,24 @@ def r3(ctx):
     okuse = 'local_bin_size' in src(inner.iter)
     ctx.emit('C17-R3', ok and okuse, BINCOUNTS, lb if lb is not None else outer, f'equalised bin size `{src(lb.value) if lb is not None else None}` with total_bins = `{src(tb.value) if tb is not None else None}` is used by the bin loop',
              key='local-bin-size')
-    zero = [s for s in walk_no_nested(outer) if isinstance(s, ast.If) and pred_is(s.test, lambda e: e['t'] == 0, {'total_bins': 't'}, consts=(0, 1))]
-    ctx.emit('C17-R3', bool(zero), BINCOUNTS, zero[0] if zero else outer, 'division by a zero bin count is guarded', key='zero-bins-guard', nontrivial=False)
+    # interval analysis: the bin count is >= 1 wherever it divides (len() >= 0 refined by the guards / max() on the way)
+    from ..util import interval_of_name_at
+
+    def bounds(e, cur_iv=(None, None)):
+        if isinstance(e, ast.Constant) and isinstance(e.value, int):
+            return (e.value, e.value)
+        if isinstance(e, ast.Name) and e.id == 'total_bins':
+            return cur_iv
+        if isinstance(e, ast.Call) and dotted(e.func) == 'len':
+            return (0, None)
+        if isinstance(e, ast.Call) and dotted(e.func) == 'max' and e.args and not e.keywords:
+            bs = [bounds(a_, cur_iv) for a_ in e.args]
+            los = [b_[0] for b_ in bs if b_[0] is not None]
+            return (max(los) if los else None, None if any(b_[1] is None for b_ in bs) else max(b_[1] for b_ in bs))
+        return (None, None)
+    ivs = interval_of_name_at(outer.body, 'total_bins', lb, bounds) if lb is not None else []
+    okz = bool(ivs) and all(lo is not None and lo >= 1 for lo, hi in ivs)
+    ctx.emit('C17-R3', okz, BINCOUNTS, lb if lb is not None else outer, f'the bin count is >= 1 where it divides the gap (intervals {ivs})', key='zero-bins-guard', nontrivial=False)
 
 
 @rule('C17', 'C17-R4', 'fill_range emits full steps while they fit and a final partial step up to the end')
@@ -395,25 +416,78 @@ def r4(ctx):
             okt = pred_is(t.test, lambda e: e['e'] < e['end'], {ev: 'e', a_end: 'end'})
         detail = f'tail `if {src(t.test)}: yield {src(yv)}`'
     ctx.emit('C17-R4', ok_loop and okt, BINCOUNTS, f, f'fill_range: {detail}' + ('' if ok_loop else '; main loop is not range(start, end, step)'), key='fill-range-tail')
-    # in-loop: yield (s, s+step) only when it fits
+    # in-loop: one inductive step, decided symbolically.  Invariant at the loop head: the local the tail starts from (e) equals the loop
+    # variable s (e = start before the loop; s advances by step).  With d = s + step - end, every path through the body is followed on
+    # linear forms; a comparison is decided from the sign of d (case "fits": d <= 0, case "over": d >= 1).  Required:
+    #   fits: exactly one yield, of (s, s + step); e = s + step afterwards; no break      over: no yield; the loop is left with e = s
     if loops and ev is not None:
         l = loops[0]
         sv = l.target.id if isinstance(l.target, ast.Name) else None
+        init = [s_ for s_ in f.body[:f.body.index(l)] if isinstance(s_, ast.Assign) and src(s_.targets[0]) == ev]
+        ok_init = len(init) == 1 and src(init[0].value) == a_start
         cfg = CFG(l.body, exceptions=False)
-        ok = True
-        over = lambda t_: pred_is(t_, lambda e: e['e'] > e['end'], {ev: 'e', a_end: 'end'})
-        for p, _ in cfg.paths():
-            y = [cfg.nodes[nid] for nid, _l in p if cfg.nodes[nid].kind == 'stmt' and isinstance(cfg.nodes[nid].ast, ast.Expr) and isinstance(cfg.nodes[nid].ast.value, ast.Yield)]
-            took_over = any(cfg.nodes[nid].kind == 'test' and lab == 'true' and over(cfg.nodes[nid].ast.test) for nid, lab in p)
-            if y and took_over:
-                ok = False
-            if y and src(y[0].ast.value.value) not in (f'({sv}, {ev})', f'{sv}, {ev}'):
-                ok = False
-        asg = [s for s in l.body if isinstance(s, ast.Assign) and src(s.targets[0]) == ev]
-        ok = ok and bool(asg) and linform(asg[0].value) == Lin({sv: 1, a_step: 1})
-        brk = [s for s in walk_no_nested(l) if isinstance(s, ast.If) and over(s.test)]
-        okb = len(brk) == 1 and any(isinstance(x, ast.Break) for x in brk[0].body) and any(isinstance(x, ast.Assign) and linform(x.value) == Lin({ev: 1, a_step: -1}) and src(x.targets[0]) == ev for x in brk[0].body)
-        ctx.emit('C17-R4', ok and okb, BINCOUNTS, l, 'fill_range loop yields (s, s+step) only while s+step <= end and hands the remainder to the tail step', key='fill-range-loop')
+        problems = []
+        npaths = 0
+        for case in ('fits', 'over'):
+            def decide(test, env, case=case):
+                if not (isinstance(test, ast.Compare) and len(test.ops) == 1 and isinstance(test.ops[0], (ast.Lt, ast.LtE, ast.Gt, ast.GtE))):
+                    return UNK
+                try:
+                    diff = linform(test.left, env) - linform(test.comparators[0], env)
+                except Exception:
+                    return UNK
+                # end := s + step - d
+                c_end = diff.coef.get(a_end, 0)
+                diff = diff - Lin({a_end: c_end}) + Lin({sv: c_end, a_step: c_end, 'd': -c_end})
+                if set(diff.coef) - {'d'}:
+                    return UNK
+                c, k = diff.coef.get('d', 0), diff.const
+                lo, hi = (None, k) if case == 'fits' and c > 0 else (k, None) if case == 'fits' and c < 0 else (c + k, None) if c > 0 else (None, c + k) if c < 0 else (k, k)
+                op = type(test.ops[0])
+                # diff in [lo, hi]; decide `diff op 0`
+                if op is ast.Lt:
+                    return True if hi is not None and hi < 0 else False if lo is not None and lo >= 0 else UNK
+                if op is ast.LtE:
+                    return True if hi is not None and hi <= 0 else False if lo is not None and lo > 0 else UNK
+                if op is ast.Gt:
+                    return True if lo is not None and lo > 0 else False if hi is not None and hi <= 0 else UNK
+                return True if lo is not None and lo >= 0 else False if hi is not None and hi < 0 else UNK
+
+            def step_fn(state, node, label, decide=decide):
+                env, ys = state
+                if node.kind == 'test' and label in ('true', 'false') and isinstance(node.ast, ast.If):
+                    v = decide(node.ast.test, env)
+                    if v is not UNK and bool(v) != (label == 'true'):
+                        return None
+                if node.kind == 'stmt' and isinstance(node.ast, ast.Assign) and len(node.ast.targets) == 1 and isinstance(node.ast.targets[0], ast.Name):
+                    env = dict(env)
+                    try:
+                        env[node.ast.targets[0].id] = linform(node.ast.value, env)
+                    except Exception:
+                        env[node.ast.targets[0].id] = Lin({f'?{node.ast.lineno}': 1})
+                if node.kind == 'stmt' and isinstance(node.ast, ast.AugAssign) and isinstance(node.ast.target, ast.Name) and isinstance(node.ast.op, (ast.Add, ast.Sub)):
+                    env = dict(env)
+                    cur = env.get(node.ast.target.id, Lin({node.ast.target.id: 1}))
+                    dlt = linform(node.ast.value, env)
+                    env[node.ast.target.id] = cur + dlt if isinstance(node.ast.op, ast.Add) else cur - dlt
+                if node.kind == 'stmt' and isinstance(node.ast, ast.Expr) and isinstance(node.ast.value, ast.Yield):
+                    yv_ = node.ast.value.value
+                    ys = ys + ((tuple(str(linform(e_, env)) for e_ in yv_.elts) if isinstance(yv_, ast.Tuple) else ('?',)),)
+                return (env, ys)
+            for p_, (env, ys) in cfg.paths(state0=({ev: Lin({sv: 1})}, ()), step=step_fn):
+                kind = cfg.nodes[p_[-1][0]].info
+                npaths += 1
+                e_after = env.get(ev)
+                if case == 'fits':
+                    want_y = ((str(Lin({sv: 1})), str(Lin({sv: 1, a_step: 1}))),)
+                    if kind not in ('fall', 'continue') or ys != want_y or e_after != Lin({sv: 1, a_step: 1}):
+                        problems.append(f'step fits (s + step <= end): leaves the body by {kind}, yields {list(ys)}, {ev} = {e_after}')
+                else:
+                    if kind != 'break' or ys or e_after != Lin({sv: 1}):
+                        problems.append(f'step does not fit (s + step > end): leaves the body by {kind}, yields {list(ys)}, {ev} = {e_after} (expected: break, nothing yielded, {ev} = s)')
+        ctx.counters['paths_enumerated'] += npaths
+        ctx.emit('C17-R4', ok_init and not problems and npaths >= 2, BINCOUNTS, l, 'fill_range loop yields (s, s+step) only while s+step <= end and hands the remainder to the tail step' +
+                 ('' if not problems else ': ' + problems[0]) + ('' if ok_init else f'; {ev} is not initialised to start'), key='fill-range-loop')
     elif loops:
         ctx.emit('C17-R4', False, BINCOUNTS, loops[0], 'fill_range: the tail step `yield <last end>, end` was not found, the loop cannot be related to it', key='fill-range-loop', undecided=True)
 
